@@ -85,16 +85,18 @@ def gen(rng: Rng, tier, i):
         if store == "zip":
             t = r.pick([{"name": "o.zip", "store": "zip"}, {"name": "o.zip", "store": "auto"},
                         {"name": "o", "store": "zip"}])
-            if r.fork("shape").chance(0.2):      # path shapes: dots, upper-case suffix, unicode, long
-                t = r.fork("shape").pick([
+            shp = r.fork("shape")
+            if shp.chance(0.2):      # path shapes: dots, upper-case suffix, unicode, long
+                t = shp.pick([
                     {"name": "dot.in.name", "store": "zip"}, {"name": "o2.ZIP", "store": "zip"},
                     {"name": "sub.d/o.zip", "store": "auto"}, {"name": "sub.d/o", "store": "zip"},
                     {"name": "ü名 o.zip", "store": "auto"}, {"name": "b.zip.bak", "store": "zip"},
                     {"name": "L" * 120 + ".zip", "store": "zip"}])
         else:
             t = r.pick([{"name": "o", "store": "dir"}, {"name": "o", "store": "auto"}])
-            if r.fork("shape").chance(0.2):
-                t = r.fork("shape").pick([
+            shp = r.fork("shape")
+            if shp.chance(0.2):
+                t = shp.pick([
                     {"name": "sub.d/p", "store": "dir"}, {"name": "sub.d/p", "store": "auto"},
                     {"name": "ü名 dir", "store": "dir"}, {"name": "trail/", "store": "dir"},
                     {"name": "D" * 120, "store": "auto"}])
